@@ -59,12 +59,26 @@ class OnError(Part):
 
     def strategy(self, tier):
         from hypothesis import strategies as st
+        def voids(t):
+            # an element that handles errors and is written without an end
+            # tag is often one of HTML's void elements (the fallback is the
+            # same: start tag, on-error value, end tag)
+            case, handler, names = t
+            k = 0
+            for el in elems(case["nodes"]):
+                if "on-error" in el["stmts"] and el.get("selfclose") \
+                        and not el.get("ns"):
+                    if names[k % len(names)]:
+                        el["name"] = names[k % len(names)]
+                    k += 1
+            return dict(case, handler=handler)
         return st.tuples(
             tstrat.templates(depth=3 if tier == "quick" else 4,
                              onerror=6, fail_p=5, len_ok=False,
                              max_elems=10, ns_elems=True),
-            st.sampled_from(HANDLER_KINDS)).map(
-                lambda t: dict(t[0], handler=t[1]))
+            st.sampled_from(HANDLER_KINDS),
+            st.lists(st.sampled_from([None, "img", "input", "br", "IMG"]),
+                     min_size=3, max_size=3)).map(voids)
 
     def source_obj(self, case):
         return tmodel.serialize(case["nodes"])
